@@ -132,6 +132,7 @@ def random_table(rng, k, nsamp, nrows, alphabet="ACGT-", ambig=""):
     """An explicit table: distinct random k-mers, random bases; rows never all-gap."""
     rows, seen = [], set()
     letters = alphabet + ambig
+    nrows = min(nrows, 4 ** (k - 1) * 3 // 4)        # there are only 4^(k-1) split k-mers (256 for k=5)
     while len(rows) < nrows:
         km = tuple(rng.randint(0, 3) for _ in range(k - 1))
         if km in seen:
